@@ -1651,6 +1651,14 @@ impl TcpProxy {
         listener.borrow_mut().activate(&self.registry, tcp_listener)
     }
 
+    /// Token (slab key of the `ListenSession`) of the listener at this address.
+    pub fn listener_token(&self, address: &SocketAddr) -> Option<Token> {
+        self.listeners
+            .iter()
+            .find(|(_, listener)| listener.borrow().address == *address)
+            .map(|(token, _)| *token)
+    }
+
     pub fn give_back_listeners(&mut self) -> Vec<(SocketAddr, MioTcpListener)> {
         self.listeners
             .values()
